@@ -19,6 +19,13 @@ def exportG (s : State) : Genesis :=
   { sparams := s.st.params, utxrs := allRecs s.st, tenants := s.st.tenants,
     oparams := s.os.params, votes := s.os.votes, prevotes := s.os.prevotes, miss := s.os.miss, feeders := s.os.feeders }
 
+/-- the document on its way from `ExportGenesis` to `InitGenesis` is JSON: a free-form string (request id, prevote hash) comes back
+with every byte that is not part of a well-formed UTF-8 sequence replaced by U+FFFD. The other strings of the document are bech32
+addresses, normalised hex, validated denominations, vote entries over hex digits and configured chain ids, or set by governance. -/
+def jsonG (g : Genesis) : Genesis :=
+  { g with utxrs := g.utxrs.map (fun p => (p.1, { p.2 with req := jsonStr p.2.req })),
+           prevotes := g.prevotes.map (fun p => (p.1, jsonStr p.2)) }
+
 /-- `ImportUTXR`: refuses a duplicate request id or record id (InitGenesis then panics), keeps the counter ahead -/
 def importUtxr (st : SState) (t : Nat) (r : Rec) : Option SState :=
   if alHas (st.index t) r.req || (st.recs t).any (fun x => x.id == r.id) then none
